@@ -13,7 +13,7 @@ import FuelVerif.Lemmas.SparseBits
 namespace FuelVerif.SmtRefine
 open FuelVerif FuelVerif.SmtStore FuelVerif.SmtBytes FuelVerif.Gen.Sparse FuelVerif.Smt
 
-variable (H : Bytes → Bytes) (hok : HashOK H) {σ : Type} (S : StoreOps σ)
+variable (H : Bytes → Bytes) {U : T → Prop} (hok : HashOn H U) {σ : Type} (S : StoreOps σ)
 
 /-! ### terminals and their nodes -/
 
@@ -33,10 +33,11 @@ theorem nodeOf_leaf_inj {d d' : Nat} {k k' : Key32} {v v' : Hash32}
   injection h with _ _ _ h4 h5
   exact ⟨Subtype.ext h4, Subtype.ext h5⟩
 
-theorem mem_hashesOf_ne_zero {h : Bytes} {t : T} (hm : h ∈ hashesOf H hok t) : h ≠ zeroSum := by
+theorem mem_hashesOf_ne_zero {h : Bytes} {t : T} (ht : ∀ u, IsSub u t → U u)
+    (hm : h ∈ hashesOf H hok t) : h ≠ zeroSum := by
   obtain ⟨u, hu, e⟩ := mem_hashesOf H hok hm
   rw [← e]
-  exact hb_ne_zero H hok (IsSub.ne_empty hu)
+  exact hb_ne_zero H hok (ht u hu) (IsSub.ne_empty hu)
 
 theorem width_le : width = maxHeight := rfl
 
@@ -95,7 +96,7 @@ theorem onPath_emptyFrames (k : Key32) (d : Nat) : ∀ n, OnPath k d (emptyFrame
   | n + 1 => ⟨by simp [emptyFrames_length], onPath_emptyFrames k d n⟩
 
 omit hok in
-theorem nodeOf_node_facts (hok : HashOK H) (e : Nat) (l r : T) :
+theorem nodeOf_node_facts (hok : HashOn H U) (e : Nat) (l r : T) :
     (nodeOf H hok e (.node l r)).isLeaf = false ∧ (nodeOf H hok e (.node l r)).height = maxHeight - e ∧
       (nodeOf H hok e (.node l r)).isPlaceholder = false := by
   simp [nodeOf, Node.isLeaf, Node.pfx, Node.isPlaceholder, Node.height]
@@ -136,7 +137,7 @@ theorem placeholderChain_frames (k : Key32) (d : Nat) : ∀ (n : Nat) (t : T) (s
 
 omit hok in
 /-- the loop that never removes does not look at the old focus -/
-theorem mergeStore_false_irrel (hok : HashOK H) (d0 : Nat) : ∀ (fs : List Frame) (a b c : T) (st : σ),
+theorem mergeStore_false_irrel (hok : HashOn H U) (d0 : Nat) : ∀ (fs : List Frame) (a b c : T) (st : σ),
     mergeStore H hok S false d0 a c fs st = mergeStore H hok S false d0 b c fs st
   | [], _, _, _, _ => rfl
   | f :: fs, a, b, c, st => by
@@ -201,6 +202,35 @@ theorem join_frames (k k' : Key32) (v v' : Hash32) (m : Nat) (hdiff : bit32 k m 
     · have h2 : bit32 k' d = true := by rw [← hbd, h1]
       simp [join, h1, h2, plug, Frame.plug]
 
+omit hok in
+theorem leaf_sub_join (k k' : Key32) (v v' : Hash32) : ∀ (f d : Nat),
+    IsSub (.leaf k v) (join bit32 f d k v k' v')
+  | 0, _ => rfl
+  | f + 1, d => by
+    have ih := leaf_sub_join k k' v v' f (d + 1)
+    unfold join
+    split
+    · exact .inr (.inl rfl)
+    · exact .inr (.inr rfl)
+    · exact .inr (.inl ih)
+    · exact .inr (.inr ih)
+
+omit hok in
+/-- the inserted leaf is a subtree of the tree after the insert -/
+theorem leaf_sub_insert (k : Key32) (v : Hash32) : ∀ (t : T) (d : Nat),
+    IsSub (.leaf k v) (Smt.insert bit32 width d k v t)
+  | .empty, _ => rfl
+  | .leaf k' v', d => by
+    unfold Smt.insert
+    split
+    · rfl
+    · exact leaf_sub_join k k' v v' _ _
+  | .node l r, d => by
+    unfold Smt.insert
+    split
+    · exact .inr (.inr (leaf_sub_insert k v r (d + 1)))
+    · exact .inr (.inl (leaf_sub_insert k v l (d + 1)))
+
 /-! ### `update_with_path_set` -/
 
 omit hok in
@@ -262,24 +292,26 @@ variable (laws : StoreLaws S)
 include laws
 
 /-- writing a leaf node keeps every stored tree stored (a leaf's node does not depend on its depth) -/
-theorem stored_put_leaf (k : Key32) (v : Hash32) (e : Nat) {st : σ} : ∀ {t : T} {d : Nat},
+theorem stored_put_leaf (k : Key32) (v : Hash32) (e : Nat) (hUl : U (.leaf k v)) {st : σ} : ∀ {t : T} {d : Nat},
+    (∀ u, IsSub u t → U u) →
     Stored H hok S st d t → Stored H hok S (putNode S st (nodeOf H hok e (.leaf k v))) d t
-  | .empty, _, _ => trivial
-  | .leaf k' v', d, hs => by
+  | .empty, _, _, _ => trivial
+  | .leaf k' v', d, hU, hs => by
     show S.get _ (hb H hok (.leaf k' v')) = some (nodeOf H hok d (.leaf k' v')).toPrim
     rw [get_putNode S laws, nodeOf_hash]
     by_cases e1 : hb H hok (.leaf k v) = hb H hok (.leaf k' v')
     · rw [if_pos e1]
-      have := hb_injective H hok e1
+      have := hb_injective H hok hUl (hU _ rfl) e1
       cases this
       rfl
     · rw [if_neg e1]; exact hs
-  | .node l r, d, hs => by
-    refine ⟨?_, stored_put_leaf k v e hs.2.1, stored_put_leaf k v e hs.2.2⟩
+  | .node l r, d, hU, hs => by
+    refine ⟨?_, stored_put_leaf k v e hUl (fun u hu => hU u (.inr (.inl hu))) hs.2.1,
+      stored_put_leaf k v e hUl (fun u hu => hU u (.inr (.inr hu))) hs.2.2⟩
     rw [get_putNode S laws, nodeOf_hash, if_neg]
     · exact hs.1
     · intro e1
-      have := hb_injective H hok e1
+      have := hb_injective H hok hUl (hU _ (.inl rfl)) e1
       cases this
 
 omit laws in
@@ -293,16 +325,18 @@ theorem pathSet_zipper {s : SMT σ} {t : T} (hr : Rep H hok S s t) (k : Key32) :
 /-- the state after the merge-side-nodes loop of `update_with_path_set` represents the re-plugged tree -/
 theorem rep_mergeStore_true (fs : List Frame) (c0 c : T) (st' : σ)
     (hc0 : Canon bit32 width 0 (plug c0 fs)) (hcn : Canon bit32 width 0 (plug c fs))
+    (hU0 : ∀ u, IsSub u (plug c0 fs) → U u) (hU : ∀ u, IsSub u (plug c fs) → U u)
     (x : T) (hx : IsSub x c) (hnx : ¬ IsSub x (plug c0 fs))
     (hcsub : ∀ u, IsSub u c → (∃ k v, u = .leaf k v) ∨ IsSub x u)
     (hc : Stored H hok S st' (0 + fs.length) c) (hs : SibsStored H hok S st' 0 fs) :
     Rep H hok S ⟨nodeOf H hok 0 (plug c fs), mergeStore H hok S true 0 c0 c fs st'⟩ (plug c fs) :=
-  ⟨hcn, rfl, stored_mergeStore H hok S laws true fs c0 c 0 st' (spineH_fresh H hok hcn)
-    (fun _ => old_spine_fresh H hok hc0 x hx hnx hcsub) hc hs⟩
+  ⟨hcn, rfl, stored_mergeStore H hok S laws true fs c0 c 0 st' hU (spineH_fresh H hok hcn hU)
+    (fun _ => old_spine_fresh H hok hc0 hU0 hU x hx hnx hcsub) hc hs, hU⟩
 
 /-- common end of the three cases of `update_with_path_set` -/
 theorem update_rep_finish (k : Key32) (v : Hash32) (fs : List Frame) (c0 c : T) (st1 st' : σ)
     (hc0 : Canon bit32 width 0 (plug c0 fs)) (hcn : Canon bit32 width 0 (plug c fs))
+    (hU0 : ∀ u, IsSub u (plug c0 fs) → U u) (hU : ∀ u, IsSub u (plug c fs) → U u)
     (hne : nodeOf H hok 0 (.leaf k v) ≠ nodeOf H hok (0 + fs.length) c0)
     (hR : updateR H S ⟨nodeOf H hok 0 (plug c0 fs), st1⟩ (nodeOf H hok 0 (.leaf k v))
       (nodeOf H hok (0 + fs.length) c0) (sideHashes H hok fs) = .ok (nodeOf H hok (0 + fs.length) c, st'))
@@ -313,8 +347,8 @@ theorem update_rep_finish (k : Key32) (v : Hash32) (fs : List Frame) (c0 c : T) 
         (nodeOf H hok (0 + fs.length) c0 :: pnodes H hok 0 c0 fs) (sideHashes H hok fs) = (s', .ok ()) ∧
       Rep H hok S s' (plug c fs) :=
   ⟨_, update_finish H S _ _ _ _ _ hne _ _ hR _ _
-      (mergeSides_plug H hok S true fs c0 c 0 st' (sibNe_of_canon H hok fs c0 0 hc0)),
-    rep_mergeStore_true H hok S laws fs c0 c st' hc0 hcn (.leaf k v) hx hnx hcsub hc hs⟩
+      (mergeSides_plug H hok S true fs c0 c 0 st' (sibNe_of_canon H hok fs c0 0 hc0 hU0)),
+    rep_mergeStore_true H hok S laws fs c0 c st' hc0 hcn hU0 hU (.leaf k v) hx hnx hcsub hc hs⟩
 
 /-- "merge leaves / merge placeholders" with a placeholder at the end of the path: nothing is built, the
 store is unchanged except possibly at the zero sum (the all-zero key takes the overwrite branch) -/
@@ -331,6 +365,7 @@ theorem updateR_placeholder (s : SMT σ) (req : Node) (sides : List Bytes) :
 already in the store, as `MerkleTree::insert` writes it first) -/
 theorem update_rep (k : Key32) (v : Hash32) {t : T} {st1 : σ}
     (hr : Rep H hok S ⟨nodeOf H hok 0 t, st1⟩ t)
+    (hUn : ∀ u, IsSub u (Smt.insert bit32 width 0 k v t) → U u)
     (hleaf : S.get st1 (hb H hok (.leaf k v)) = some (nodeOf H hok 0 (.leaf k v)).toPrim) :
     ∃ s', updateWithPathSet H S ⟨nodeOf H hok 0 t, st1⟩ (nodeOf H hok 0 (.leaf k v))
         (nodeOf H hok (0 + (frames k 0 t).length) (term k 0 t) ::
@@ -342,12 +377,12 @@ theorem update_rep (k : Key32) (v : Hash32) {t : T} {st1 : σ}
   generalize frames k 0 t = fs at hop hplug ⊢
   generalize term k 0 t = c0 at hterm hplug ⊢
   subst hplug
-  obtain ⟨hcan, _, hst⟩ := hr
+  obtain ⟨hcan, _, hst, hU0⟩ := hr
   simp only at hst
   have hall : (plug c0 fs).All (AgreeBelow bit32 0 k) :=
     All.of_forall (fun _ i hi => absurd hi (Nat.not_lt_zero i)) _
   have hcan' := (canon_insert bit32 width keyExt_bytes v 0 (plug c0 fs) (Nat.zero_le _) hcan hall).1
-  rw [insert_plug k v fs c0 0 hop] at hcan' ⊢
+  rw [insert_plug k v fs c0 0 hop] at hcan' hUn ⊢
   obtain ⟨hstc, _, hsts⟩ := (stored_plug H hok S fs c0 0).mp hst
   by_cases hne : nodeOf H hok 0 (.leaf k v) = nodeOf H hok (0 + fs.length) c0
   · -- the very same leaf is already there
@@ -361,7 +396,7 @@ theorem update_rep (k : Key32) (v : Hash32) {t : T} {st1 : σ}
     refine ⟨_, by rw [← hne]; exact update_same H S _ _ _ _, ?_⟩
     have : Smt.insert bit32 width (0 + fs.length) k v (.leaf k v) = .leaf k v := by simp [Smt.insert]
     rw [this]
-    exact ⟨hcan, rfl, hst⟩
+    exact ⟨hcan, rfl, hst, hU0⟩
   · have hnx : ¬ IsSub (.leaf k v) (plug c0 fs) := by
       intro h
       have h2 := leaf_on_path k v fs c0 0 hop hcan h
@@ -375,16 +410,17 @@ theorem update_rep (k : Key32) (v : Hash32) {t : T} {st1 : σ}
     · -- the path ends at a placeholder
       subst e
       have hins : Smt.insert bit32 width (0 + fs.length) k v (.empty : T) = .leaf k v := rfl
-      rw [hins] at hcan' ⊢
+      rw [hins] at hcan' hUn ⊢
       obtain ⟨st', hR, hfr⟩ := updateR_placeholder H S laws ⟨nodeOf H hok 0 (plug .empty fs), st1⟩
         (nodeOf H hok 0 (.leaf k v)) (sideHashes H hok fs)
-      refine update_rep_finish H hok S laws k v fs .empty (.leaf k v) st1 st' hcan hcan' hne hR rfl hnx
+      refine update_rep_finish H hok S laws k v fs .empty (.leaf k v) st1 st' hcan hcan' hU0 hUn hne hR rfl hnx
         (fun u hu => .inl ⟨k, v, hu⟩) ?_ ?_
       · show S.get st' (hb H hok (.leaf k v)) = _
-        rw [hfr _ (hb_ne_zero H hok (by intro h; cases h))]
+        rw [hfr _ (hb_ne_zero H hok (hUn _ (isSub_plug fs _ _ rfl)) (by intro h; cases h))]
         exact hleaf
       · exact sibsStored_congr H hok S fs hsts
-          (fun g _ h hm => hfr h (mem_hashesOf_ne_zero H hok hm))
+          (fun g hg h hm => hfr h (mem_hashesOf_ne_zero H hok
+            (fun x hx => hU0 x (isSub_plug_sib fs _ x g hg hx)) hm))
     · subst e
       by_cases hk : k' = k
       · -- overwrite
@@ -392,17 +428,17 @@ theorem update_rep (k : Key32) (v : Hash32) {t : T} {st1 : σ}
         have hv : v' ≠ v := fun e => hne (by subst e; rfl)
         have hins : Smt.insert bit32 width (0 + fs.length) k' v (.leaf k' v') = .leaf k' v := by
           simp [Smt.insert]
-        rw [hins] at hcan' ⊢
+        rw [hins] at hcan' hUn ⊢
         have hR : updateR H S ⟨nodeOf H hok 0 (plug (.leaf k' v') fs), st1⟩ (nodeOf H hok 0 (.leaf k' v))
             (nodeOf H hok (0 + fs.length) (.leaf k' v')) (sideHashes H hok fs) =
             .ok (nodeOf H hok (0 + fs.length) (.leaf k' v), S.remove st1 (hb H hok (.leaf k' v'))) := by
           simp [updateR, nodeOf, Node.leafKey, Node.bytesLo, Node.hash, hb_leaf]
         have hhne : hb H hok (.leaf k' v') ≠ hb H hok (.leaf k' v) := by
           intro e
-          have := hb_injective H hok e
+          have := hb_injective H hok (hU0 _ (isSub_plug fs _ _ rfl)) (hUn _ (isSub_plug fs _ _ rfl)) e
           cases this
           exact hv rfl
-        refine update_rep_finish H hok S laws k' v fs (.leaf k' v') (.leaf k' v) st1 _ hcan hcan' hne hR rfl hnx
+        refine update_rep_finish H hok S laws k' v fs (.leaf k' v') (.leaf k' v) st1 _ hcan hcan' hU0 hUn hne hR rfl hnx
           (fun u hu => .inl ⟨k', v, hu⟩) ?_ ?_
         · show S.get _ (hb H hok (.leaf k' v)) = _
           rw [laws.get_remove, if_neg hhne]
@@ -411,7 +447,7 @@ theorem update_rep (k : Key32) (v : Hash32) {t : T} {st1 : σ}
           rw [laws.get_remove, if_neg]
           intro e
           rw [← e] at hm
-          exact focus_fresh H hok hcan (by intro h; cases h) g hg hm
+          exact focus_fresh H hok hcan hU0 (by intro h; cases h) g hg hm
       · -- a different leaf: merge leaves, merge placeholders
         have hkv : k.val ≠ k'.val := fun e => hk (Subtype.ext e).symm
         obtain ⟨hm1, hm2, hm3⟩ := cpc_spec k.val k'.val (by rw [k.property, k'.property]) hkv
@@ -431,7 +467,7 @@ theorem update_rep (k : Key32) (v : Hash32) {t : T} {st1 : σ}
           simp only [Smt.insert, if_neg hk]
           exact join_frames k k' v v' m hm3 n (0 + fs.length) _ hn.symm
             (by rw [width_le]; omega) (fun i _ h2 => hm2 i h2)
-        rw [hins] at hcan' ⊢
+        rw [hins] at hcan' hUn ⊢
         have hcA := canon_plug fs _ 0 hcan'
         have hR : updateR H S ⟨nodeOf H hok 0 (plug (.leaf k' v') fs), st1⟩ (nodeOf H hok 0 (.leaf k v))
             (nodeOf H hok (0 + fs.length) (.leaf k' v')) (sideHashes H hok fs) =
@@ -462,7 +498,7 @@ theorem update_rep (k : Key32) (v : Hash32) {t : T} {st1 : σ}
         have hfull : Canon bit32 width 0
             (plug (.leaf k v) ((bf :: emptyFrames k (0 + fs.length) n) ++ fs)) := by
           rw [plug_append]; exact hcan'
-        refine update_rep_finish H hok S laws k v fs (.leaf k' v') _ st1 _ hcan hcan' hne hR
+        refine update_rep_finish H hok S laws k v fs (.leaf k' v') _ st1 _ hcan hcan' hU0 hUn hne hR
           (isSub_plug _ _ _ rfl) hnx ?_ ?_ ?_
         · intro u hu
           rcases isSub_plug_cases _ _ _ hu with h1 | h1 | ⟨g, hg, h1⟩
@@ -471,14 +507,17 @@ theorem update_rep (k : Key32) (v : Hash32) {t : T} {st1 : σ}
           · rcases List.mem_cons.mp hg with e | hg'
             · subst e; exact .inl ⟨k', v', h1⟩
             · rw [emptyFrames_sib k _ n g hg'] at h1; exact absurd h1 id
-        · exact stored_mergeStore H hok S laws false _ (.leaf k' v') (.leaf k v) (0 + fs.length) st1
-            (spineH_fresh H hok hcA) (fun e => by cases e) hSt1leaf hsibs1
+        · have hUA : ∀ u, IsSub u (plug (.leaf k v) (bf :: emptyFrames k (0 + fs.length) n)) → U u :=
+            fun u hu => hUn u (isSub_plug fs _ u hu)
+          exact stored_mergeStore H hok S laws false _ (.leaf k' v') (.leaf k v) (0 + fs.length) st1 hUA
+            (spineH_fresh H hok hcA hUA) (fun e => by cases e) hSt1leaf hsibs1
         · refine sibsStored_congr H hok S fs hsts (fun g hg h hm => ?_)
           apply mergeStore_frame H hok S laws false
           · intro hin
             have hin2 : h ∈ spineH H hok (.leaf k v) ((bf :: emptyFrames k (0 + fs.length) n) ++ fs) := by
               rw [spineH_append]; exact List.mem_append_left _ hin
-            exact (spineH_fresh H hok hfull h hin2).2 g (List.mem_append_right _ hg) hm
+            exact (spineH_fresh H hok hfull (by rw [plug_append]; exact hUn) h hin2).2 g
+              (List.mem_append_right _ hg) hm
           · intro e; cases e
 
 omit laws in
@@ -491,17 +530,18 @@ theorem nodeOf_isPlaceholder {d : Nat} {t : T} (h : t ≠ .empty) : (nodeOf H ho
 /-- **`MerkleTree::insert` refines the structural `insert`**: on a state representing the canonical tree `t`
 it succeeds and leaves a state representing `insert k (H data) t` -/
 theorem insert_rep {s : SMT σ} {t : T} (hr : Rep H hok S s t) (k : Key32) (data : Bytes) (v : Hash32)
-    (hv : v.val = H data) :
+    (hv : v.val = H data) (hUn : ∀ u, IsSub u (Smt.insert bit32 width 0 k v t) → U u) :
     ∃ s', SmtStore.insert H S s k.val data = (s', .ok ()) ∧
       Rep H hok S s' (Smt.insert bit32 width 0 k v t) := by
   obtain ⟨root, st⟩ := s
-  obtain ⟨hcan, hroot, hst⟩ := hr
+  obtain ⟨hcan, hroot, hst, hU0⟩ := hr
   simp only at hroot hst
   subst hroot
+  have hUl : U (.leaf k v) := hUn _ (leaf_sub_insert k v t 0)
   have hleafnode : Node.createLeaf H k.val data = nodeOf H hok 0 (.leaf k v) := by
     simp [Node.createLeaf, nodeOf, hv]
   have hst1 : Stored H hok S (putNode S st (nodeOf H hok 0 (.leaf k v))) 0 t :=
-    stored_put_leaf H hok S laws k v 0 hst
+    stored_put_leaf H hok S laws k v 0 hUl hU0 hst
   have hleaf : S.get (putNode S st (nodeOf H hok 0 (.leaf k v))) (hb H hok (.leaf k v)) =
       some (nodeOf H hok 0 (.leaf k v)).toPrim := by
     rw [get_putNode S laws, nodeOf_hash, if_pos rfl]
@@ -509,11 +549,11 @@ theorem insert_rep {s : SMT σ} {t : T} (hr : Rep H hok S s t) (k : Key32) (data
   simp only [hleafnode]
   by_cases ht : t = .empty
   · subst ht
-    refine ⟨⟨nodeOf H hok 0 (.leaf k v), putNode S st (nodeOf H hok 0 (.leaf k v))⟩, ?_, trivial, rfl, hleaf⟩
+    refine ⟨⟨nodeOf H hok 0 (.leaf k v), putNode S st (nodeOf H hok 0 (.leaf k v))⟩, ?_, trivial, rfl, hleaf, hUn⟩
     simp [nodeOf, Node.isPlaceholder]
   · have hrep1 : Rep H hok S ⟨nodeOf H hok 0 t, putNode S st (nodeOf H hok 0 (.leaf k v))⟩ t :=
-      ⟨hcan, rfl, hst1⟩
+      ⟨hcan, rfl, hst1, hU0⟩
     rw [if_neg (by simp [nodeOf_isPlaceholder H hok ht]), pathSet_zipper H hok S hrep1 k]
-    exact update_rep H hok S laws k v hrep1 hleaf
+    exact update_rep H hok S laws k v hrep1 hUn hleaf
 
 end FuelVerif.SmtRefine
